@@ -42,8 +42,9 @@ try:
         files = subprocess.run('git -C /repo diff --name-only', shell=True, capture_output=True, text=True).stdout.split()
         out = {}
         try:
+            skip_kani = not any(f.startswith(KANI_FILES) for f in files)
             def one(p):
-                c = subprocess.run([V + '/check', p], capture_output=True, text=True)
+                c = subprocess.run([V + '/check', p], capture_output=True, text=True, env=dict(os.environ, VERIF_DEV_SKIP_KANI='1' if skip_kani else '0'))
                 lines = [l for l in c.stdout.split('\n') if l.startswith('UNDECIDED') or l.startswith('VIOLATION') or 'failed obligation' in l]
                 return p, {'exit': c.returncode, 'lines': lines[:4]}
             # a check is run only if the change touches a file it reads: the files its Verus units extract from, or -- when it has Kani
